@@ -384,6 +384,41 @@ impl Write for FailingWriter {
     }
 }
 
+/// A sink that misbehaves once in a way `Write` allows, at the write call that reaches byte
+/// `at`: an `Interrupted` error (to be retried), a one-byte short write, or - for `flush` - an
+/// error from `flush` after everything was accepted. Everything else is stored.
+pub struct BenignWriter {
+    at: usize,
+    /// 0 Interrupted once, 1 short write of one byte, 2 WouldBlock (a real error)
+    mode: u8,
+    fired: bool,
+    pub data: Vec<u8>,
+}
+
+impl Write for BenignWriter {
+    fn write(&mut self, buf: &[u8]) -> io::Result<usize> {
+        if buf.is_empty() {
+            return Ok(0);
+        }
+        if !self.fired && self.data.len() + buf.len() > self.at {
+            self.fired = true;
+            match self.mode {
+                0 => return Err(io::Error::new(io::ErrorKind::Interrupted, "injected EINTR")),
+                1 => {
+                    self.data.push(buf[0]);
+                    return Ok(1);
+                }
+                _ => return Err(io::Error::new(io::ErrorKind::WouldBlock, "injected EWOULDBLOCK")),
+            }
+        }
+        self.data.extend_from_slice(buf);
+        Ok(buf.len())
+    }
+    fn flush(&mut self) -> io::Result<()> {
+        Ok(())
+    }
+}
+
 pub struct OneByteWriter {
     pub data: Vec<u8>,
 }
@@ -404,9 +439,9 @@ impl Write for OneByteWriter {
 // ---------------------------------------------------------------------------
 // Families
 
-pub const FAMILIES: [&str; 20] = [
+pub const FAMILIES: [&str; 21] = [
     "truncation", "byte-substitution", "u32-field", "chunk-ops", "xml-mutation", "read-script-1", "read-script-2", "write-fault",
-    "attr-all-bytes", "xml-all-strings", "header-variants", "deep-xml", "chunk-splice", "one-byte-io", "chunk-payload-cut", "chunk-payload-delete-byte", "decode-after-failure", "xml-long-text", "bin-long-names", "zstd-size-fields",
+    "attr-all-bytes", "xml-all-strings", "header-variants", "deep-xml", "chunk-splice", "one-byte-io", "chunk-payload-cut", "chunk-payload-delete-byte", "decode-after-failure", "xml-long-text", "bin-long-names", "zstd-size-fields", "write-benign",
 ];
 
 const SUBST: [u8; 5] = [0x00, 0x01, 0x7f, 0x80, 0xff];
@@ -827,6 +862,7 @@ impl Engine {
             17 => (self.xml_tag_pos.len() * LONG_PLACES * LONG_SIZES.len() * LONG_FILLS.len()) as u64,
             18 => (4 * 2 * LONG_SIZES.len() * LONG_FILLS.len()) as u64,
             19 => (4 * 4 * 2 * ZSTD_SIZES.len()) as u64,
+            20 => self.write_targets.iter().map(|t| t.2.min(400) as u64 * 3).sum(),
             _ => 0,
         }
     }
@@ -1101,6 +1137,54 @@ impl Engine {
                 b.extend_from_slice(&fb.bytes[tb[j].1..]);
                 judge_decode(Kind::Bin, &b, fam, false, out, &replay);
             }
+            20 => {
+                let mut idx = index;
+                let mut target = None;
+                for t in &self.write_targets {
+                    let n = t.2.min(400) as u64 * 3;
+                    if idx < n {
+                        target = Some((*t, idx));
+                        break;
+                    }
+                    idx -= n;
+                }
+                let ((p, codec, len), i) = target.expect("write target");
+                let (slot, mode) = ((i / 3) as usize, (i % 3) as u8);
+                // every offset of short outputs, 400 evenly spread offsets of longer ones
+                let at = if len <= 400 { slot } else { slot * len / 400 };
+                let plan = &self.corpus.plans[p];
+                let r = plan.realise(How::Nested, None);
+                let roots = plan.root_refs(&r);
+                let mut w = BenignWriter { at, mode, fired: false, data: Vec::new() };
+                let res = crate::evidence::guarded(|| -> Result<(), String> {
+                    if codec < 3 {
+                        rbx_binary::Serializer::new().compression_type(Compression::all()[codec as usize].real()).serialize(&mut w, &r.dom, &roots).map_err(|e| e.to_string())
+                    } else {
+                        rbx_xml::to_writer(&mut w, &r.dom, &roots, xml_options(XmlMode::Unknown).0).map_err(|e| e.to_string())
+                    }
+                });
+                out.executions += 1;
+                let name = if codec < 3 { "rbx_binary::to_writer" } else { "rbx_xml::to_writer" };
+                let what = ["an Interrupted error (to be retried)", "a one-byte short write", "a WouldBlock error"][mode as usize];
+                match (res, mode) {
+                    (Err((site, msg)), _) => out.violation(format!("c13|{}|panic|{}", name, crate::evidence::panic_signature(&site, &msg)), format!("{} panicked when the sink answered a write at byte {} with {}: {} {}", name, at, what, site, msg), &replay),
+                    (Ok(Ok(())), 2) => {
+                        if w.fired {
+                            out.violation(format!("c13|{}|reports-success-after-sink-failure|WouldBlock", name), format!("{} returned Ok although the sink refused a write at byte {} with WouldBlock", name, at), &replay);
+                        }
+                    }
+                    (Ok(Err(_)), 2) => {}
+                    (Ok(Err(e)), _) => out.violation(format!("c13|{}|fails-on-benign-sink|{}", name, mode), format!("{} failed ({}) although the sink only answered one write at byte {} with {}", name, e, at, what), &replay),
+                    (Ok(Ok(())), _) => {
+                        if let Some(reference) = self.write_reference.get(&(p, codec)) {
+                            if &w.data != reference {
+                                out.violation(format!("c13|{}|output-differs-on-benign-sink|{}", name, mode), format!("{}: after {} at byte {} the sink holds {} bytes that differ from the reference output ({} bytes)", name, what, at, w.data.len(), reference.len()), &replay);
+                            }
+                        }
+                    }
+                }
+                out.outcome("write-benign");
+            }
             19 => {
                 let i = index as usize;
                 let declared = ZSTD_SIZES[i % ZSTD_SIZES.len()];
@@ -1339,7 +1423,7 @@ pub fn check(run: &Run) -> Value {
             {"family": "xml-all-strings", "case": "<a/>"},
         ],
         "exhaustive": res.abandoned.is_empty(),
-        "rule": "fault enumeration around the real decoders/encoders: every strict prefix of every corpus file; every single-byte substitution from a 5-value set and every single-bit flip at every offset; every chunk payload cut at every length and with every single byte deleted, re-framed consistently (uncompressed / LZ4 literals / raw zstd); every u32 window of every binary file set to 7 boundary values; every chunk deleted / duplicated / swapped / spliced from another file; every tag / attribute / text-node mutation of every XML file; every read() script with <=1 (thorough: <=2) deviations {Short(1), Short(half), Interrupted} and the one-byte reader; a failing sink at every output offset (Err and Ok(0)) and a one-byte sink; all byte strings of length <=3 into Attributes::from_reader; all strings of length <=5 (thorough 6) over a 14-symbol XML alphabet into rbx_xml::from_str; all binary headers differing from a valid one in <=2 bytes over a 5-value alphabet; legal XML nested 1000..100000 deep; runs of 1..65537 bytes of one- to four-byte characters as stray text, CDATA, tag name and attribute value at every tag of every XML file, and as class name / property name / string value of hand-assembled binary files (well-formed, unknown type id, missing payload); hand-made Zstandard frames whose content-size field (absent / 2 / 4 / 8 bytes wide) and chunk header length state the same wrong size (10 sizes up to 2^64-1) for each of four chunk kinds. A case is one (family, index) pair.",
+        "rule": "fault enumeration around the real decoders/encoders: every strict prefix of every corpus file; every single-byte substitution from a 5-value set and every single-bit flip at every offset; every chunk payload cut at every length and with every single byte deleted, re-framed consistently (uncompressed / LZ4 literals / raw zstd); every u32 window of every binary file set to 7 boundary values; every chunk deleted / duplicated / swapped / spliced from another file; every tag / attribute / text-node mutation of every XML file; every read() script with <=1 (thorough: <=2) deviations {Short(1), Short(half), Interrupted} and the one-byte reader; a failing sink at every output offset (Err and Ok(0)), a one-byte sink, and a sink that once answers with Interrupted / a one-byte short write (output must be complete and identical) or WouldBlock (must fail); all byte strings of length <=3 into Attributes::from_reader; all strings of length <=5 (thorough 6) over a 14-symbol XML alphabet into rbx_xml::from_str; all binary headers differing from a valid one in <=2 bytes over a 5-value alphabet; legal XML nested 1000..100000 deep; runs of 1..65537 bytes of one- to four-byte characters as stray text, CDATA, tag name and attribute value at every tag of every XML file, and as class name / property name / string value of hand-assembled binary files (well-formed, unknown type id, missing payload); hand-made Zstandard frames whose content-size field (absent / 2 / 4 / 8 bytes wide) and chunk header length state the same wrong size (10 sizes up to 2^64-1) for each of four chunk kinds. A case is one (family, index) pair.",
     })
 }
 
